@@ -115,3 +115,7 @@ func redecode(fd *descriptorpb.FileDescriptorProto, types *protoregistry.Types) 
 func semanticEqual(got, want *descriptorpb.FileDescriptorProto, types *protoregistry.Types) bool {
 	return proto.Equal(redecode(got, types), redecode(want, types))
 }
+
+func prototextFormatWith(m proto.Message, types *protoregistry.Types) string {
+	return prototext.MarshalOptions{Multiline: true, Resolver: types}.Format(m)
+}
